@@ -22,7 +22,6 @@ HOOK_COMMITS = ["0d1b28c", "7f73fb6"]
 
 NOT_APPLICABLE = {
     "C04": "quantifies over safe *programs* and the oracle is rustc's accept/reject verdict (borrow/const checking); Verus and Kani both run after type checking with lifetimes erased, so no contract on a function of /repo can express it (DESIGN.md §4)",
-    "C09": "not reached within budget by this family: every string harness (symbolic UTF-8 text of <= 2 chars over a fixed buffer against std::string::String: pop/truncate/remove/split_off/non-boundary panics) exceeded CBMC's 10-minute limit because of the chars()/UTF-8 decoding loops, and Verus cannot reason about str bytes; the harnesses are kept in kani/incrate/h_coll.rs but are not registered (DESIGN.md section 4)",
     "C19": "quantifies over thread schedules; Kani has no thread support and Verus would need bump_pool.rs rewritten over its own Mutex/permission types, i.e. a model rather than the code (DESIGN.md §4)",
 }
 
@@ -122,10 +121,10 @@ PROPS = {
     ),
     "C16": dict(
         level="other",
-        technique="per-operation partition contracts on BumpBox<[T]>::{split_at,split_first,split_last,split_off_first,split_off_last,merge} and FixedBumpVec::split_at_spare checked by Kani; independence of the parts = the sub-block preconditions of the C01/C02/C13 realloc/deallocate contracts",
-        claim="split_at / split_first / split_last / split_off_first / split_off_last / split_at_spare on a symbolic slice or fixed vector (len<=4, cap 5): parts adjacent and in order, lengths (and capacity) add up, every element in its place, None only when empty; merge of adjacent parts restores the whole (address, length, elements) and merge of non-adjacent parts never returns. Independence of parts afterwards is an instance of the C01/C02/C13 contracts, which are proved (bounded) for ANY sub-block of the allocated region, not only for blocks an allocation call returned.",
-        note="split_off (range, rotates elements), partition, into_flattened, map_in_place and the String/Vec split_off variants are NOT under contract: CBMC did not finish slice::rotate_* within 10 minutes even for len 3 (measured); FixedBumpVec::split_off capacity arithmetic likewise.",
-        not_covered=["split_off (all types), partition, into_flattened, map_in_place", "zero-sized elements", "follow-up operation sequences beyond the sub-block argument"],
+        technique="per-operation partition contracts on BumpBox<[T]>::{split_off,split_at,split_first,split_last,split_off_first,split_off_last,merge}, FixedBumpVec::{split_off,split_at_spare}, BumpBox<str>::split_off checked by Kani; independence of the parts = the sub-block preconditions of the C01/C02/C13 realloc/deallocate contracts",
+        claim="split_at / split_first / split_last / split_off_first / split_off_last / split_at_spare on a symbolic slice or fixed vector (len<=4, cap 5): parts adjacent and in order, lengths (and capacity) add up, every element in its place, None only when empty; merge of adjacent parts restores the whole (address, length, elements) and merge of non-adjacent parts never returns. split_off (BumpBox<[T]> and FixedBumpVec incl. capacity arithmetic): for EVERY range of every length 3..6 the part is the range in order, the rest keeps its order, lengths/capacities add up, buffers disjoint and inside the original (concrete length and range, symbolic element values); BumpBox<str>::split_off at every boundary of two-character texts. Independence of parts afterwards is an instance of the C01/C02/C13 contracts, which are proved (bounded) for ANY sub-block of the allocated region, not only for blocks an allocation call returned.",
+        note="partition, into_flattened, map_in_place and BumpVec/BumpString::split_off are NOT under contract; split_off with a SYMBOLIC range is out of reach: CBMC did not finish slice::rotate_* within 10 minutes even for len 3 (measured); FixedBumpVec::split_off capacity arithmetic likewise.",
+        not_covered=["partition, into_flattened, map_in_place, BumpVec/BumpString::split_off", "lengths above 6", "zero-sized elements", "follow-up operation sequences beyond the sub-block argument"],
     ),
     "C08": dict(
         level="other",
@@ -140,6 +139,13 @@ PROPS = {
         claim="For clear, truncate, remove, swap_remove, pop, retain, into_iter (consumed from both ends, then dropped) on a symbolic BumpBox<[Tok]> (len<=3): after the operation and after dropping every owner each element has been dropped exactly once, a removed value is not dropped before the caller drops it, and leak / into_raw drop nothing.",
         note="Panic-free executions only: neither verifier has unwinding semantics, so every clause about a callback that panics mid-operation is out of reach. FixedBumpVec/BumpVec/MutBumpVec(Rev) wrappers, splice, extract_if, map_in_place, dedup, split_off, append, resize are not covered.",
         not_covered=["every panic-injection clause", "growable vectors and their iterators; splice, extract_if, map, dedup, split_off, append, resize, extend", "zero-sized element types"],
+    ),
+    "C09": dict(
+        level="other",
+        technique="per-operation refinement contracts against std::string::String over symbolic UTF-8 text with a concrete byte-length pattern, every index enumerated, checked by Kani; independent UTF-8 validator cross-checked against core::str::from_utf8",
+        claim="For text of up to two characters with every combination of UTF-8 lengths (1-4 bytes each; all scalar values of those lengths symbolic) BumpBox<str>::{truncate, split_off, remove, pop} at every boundary index return the same characters and leave the same bytes as std::string::String, and the contents stay valid UTF-8; every out-of-range or non-boundary index makes truncate/split_off/remove panic (never return); FixedBumpString::{try_insert, try_insert_str, try_push_str, try_replace_range} succeed iff the result fits the fixed capacity, equal String on success and leave the contents unchanged on failure; BumpBox::from_utf8 accepts exactly what core::str::from_utf8 accepts (all byte strings of length 2-4).",
+        note="Bounded: <=2 characters (<=8 bytes), the length pattern is concrete per obligation (a symbolic pattern did not finish in CBMC). BumpString / MutBumpString (growth), retain, drain, extend_from_within, from_utf16(_lossy), from_utf8_lossy, formatting, C-string constructors and UTF-8 validity after a panic are NOT covered.",
+        not_covered=["BumpString / MutBumpString", "retain, drain, extend_from_within, from_utf8_lossy, from_utf16(_lossy), formatting, alloc_cstr* / into_cstr", "validity after an operation that panicked (no unwinding semantics)", "texts longer than two characters"],
     ),
 }
 
